@@ -95,6 +95,24 @@ def run_cvc5(smt2, timeout_s=CVC5_TIMEOUT_S, want_model=False):
         os.unlink(path)
 
 
+def _func_names(e):
+    """names of the uninterpreted function symbols (arity > 0) occurring in e"""
+    out, seen, stack = set(), set(), [e]
+    while stack:
+        x = stack.pop()
+        if x.get_id() in seen:
+            continue
+        seen.add(x.get_id())
+        if z3.is_app(x):
+            d = x.decl()
+            if d.kind() == z3.Z3_OP_UNINTERPRETED and x.num_args() > 0:
+                out.add(d.name())
+            stack.extend(x.children())
+        elif z3.is_quantifier(x):
+            stack.append(x.body())
+    return out
+
+
 def check_valid(pc, formula, want_model=True, timeout_ms=None, second_backend=True):
     """Is `formula` valid under the assumptions `pc`?  Returns (status, backend, seconds, model, solver)."""
     t0 = time.time()
@@ -102,17 +120,54 @@ def check_valid(pc, formula, want_model=True, timeout_ms=None, second_backend=Tr
     fs = list(pc) + [neg]
     # stage A: only the first unfolding round (and the lemma instances): many obligations are already propositional
     # consequences of the path condition; a small query keeps the solver out of the noise of the full instantiation
+    # stage A0: only the axioms about the specification functions that occur in the goal itself
     try:
-        ax0 = sym.instantiate_axioms(fs, rounds=1)
-        s0 = z3.Solver()
-        s0.set('timeout', 2000)
-        s0.add(*fs)
-        s0.add(*ax0)
-        if s0.check() == z3.unsat:
-            return 'proved', 'z3', time.time() - t0, None, s0
+        gapps = []
+        sym._walk(neg, set(), gapps)
+        allowed = set(sf.name for sf, _ in gapps)
+        if allowed:
+            full = sym.instantiate_axioms(fs, rounds=4)
+            keep = []
+            for a in full:
+                aa = []
+                sym._walk(a, set(), aa)
+                if all(sf.name in allowed for sf, _ in aa):
+                    keep.append(a)
+            keep += sym.length_axioms(fs)
+            keep += sym.structural_axioms(fs + keep)
+            s0 = z3.Solver()
+            s0.set('timeout', 3000)
+            s0.add(*fs)
+            s0.add(*keep)
+            if s0.check() == z3.unsat:
+                return 'proved', 'z3', time.time() - t0, None, s0
+            # the same with the path condition sliced to the formulas that only use function symbols of the goal
+            # (dropping assumptions is sound for a proof; irrelevant uninterpreted predicates derail the sequence solver)
+            gf = _func_names(neg) | set(n for a in keep for n in _func_names(a))
+            sliced = [f for f in pc if _func_names(f) <= gf]
+            s1 = z3.Solver()
+            s1.set('timeout', 3000)
+            s1.add(*sliced)
+            s1.add(neg)
+            s1.add(*keep)
+            if s1.check() == z3.unsat:
+                return 'proved', 'z3', time.time() - t0, None, s1
     except z3.Z3Exception:
         pass
+    for depth in (1, 2, 3):
+        try:
+            ax0 = sym.instantiate_axioms(fs, rounds=depth) + sym.length_axioms(fs)
+            ax0 += sym.structural_axioms(fs + ax0)
+            s0 = z3.Solver()
+            s0.set('timeout', 2000)
+            s0.add(*fs)
+            s0.add(*ax0)
+            if s0.check() == z3.unsat:
+                return 'proved', 'z3', time.time() - t0, None, s0
+        except z3.Z3Exception:
+            break
     ax = sym.instantiate_axioms(fs)
+    ax += sym.length_axioms(fs)
     ax += sym.structural_axioms(fs + ax)
     ax += sym.str_elem_distinct()
     s = z3.Solver()
